@@ -326,6 +326,39 @@ def shard(ctx):
         if i < 4:
             ctx.sample({'tree': model.show(model.from_spec(
                 case['spec']['root']), 'w'), 'sequence': case['seq']}, 4)
+    # a step applied a second time after the tree was restructured in between:
+    # split and raise, move punctuation / re-attach / collapse and restore,
+    # split and raise again; binarize twice; top node twice
+    for i in ctx.indices(ctx.pick(1200, 60000)):
+        rng = ctx.rng('twice', i)
+        mark = lambda: rng.choice([['negra_mark_heads', {}],
+                                   ['mark_heads_by_rules',
+                                    {'mark_heads_preset': 'negra'}]])
+        between = rng.choice([
+            [['punctuation_root', {}]], [['punctuation_verylow', {}]],
+            [['punctuation_symetrify', {}]], [['root_attach', {}]],
+            [['collapse_unary_chains', {}], ['uncollapse_unary_chains', {}]],
+            [['punctuation_root', {}], ['root_attach', {}]], []])
+        kind = rng.choice(['split', 'split', 'split', 'binarize', 'collapse'])
+        if kind == 'split':
+            once = [mark(), ['boyd_split', {}], ['raising', {}]]
+            seq = ([['root_attach', {}]] if rng.random() < 0.6 else []) + \
+                once + between + [mark(), ['boyd_split', {}], ['raising', {}]]
+        elif kind == 'binarize':
+            seq = [mark(), ['binarize', {}]] + between + \
+                [mark(), ['binarize', rng.choice([{}, {'bare_bin_labels':
+                                                       True}])]]
+        else:
+            seq = [['collapse_unary_chains', {}],
+                   ['uncollapse_unary_chains', {}]] + \
+                [b for b in between if b[0] not in ('collapse_unary_chains',
+                                                    'uncollapse_unary_chains')] \
+                + [['collapse_unary_chains', {}],
+                   ['uncollapse_unary_chains', {}]]
+        case = {'kind': 'seq', 'spec': make_tree(rng), 'seq': seq}
+        run_case(ctx, case, rng)
+        ctx.stratum('a step applied twice with a restructuring in between '
+                    '(%s)' % kind)
     # each transformation alone on every small shape (heads pre-set)
     k = 0
     for n in range(1, ctx.pick(4, 5) + 1):
